@@ -30,6 +30,8 @@
                     CSend  close element to the peer
      SetCallbacks SIdle set the callbacks (error if present) ; then startCallbackGoroutine, as the event loop:
                     SCas CAS callbackInProcess 0->1; won: SWgAdd wg.Add(1), SSpawn gopool.Go
+     sync read    (before SetCallbacks, same user goroutine) SyIdle readMore: pendingData.moveTo(recvBuf);
+                    SyCons k: Peek (k = 0) / ReadBytes k
      user Flush   UIdle load state (not opened: ErrStreamClosed) ; UPut queue element to the peer
 
    The session itself stays open (Session.Close is C14's subject); the transport to the peer is one FIFO
@@ -52,15 +54,18 @@ Inductive cpc :=
 | CRecv (old : Z) | CNotify | CSend | KRet.
 
 Inductive gpc :=
-| GMove | GChk | GCb | GCbBody (k : nat) (cl : bool) | GCbClose (c : cpc) | GCbEnd | GClr | GLdCs | GLen
+| GMove | GChk | GCb | GCbBody (k : nat) (cl : nat) | GCbClose (c : cpc) (more : nat) | GCbEnd | GClr | GLdCs | GLen
 | GCas | GWgDone | GWgDoneClose | GClose (c : cpc) | GExit.
 
 Inductive epcT := EIdle | EHalf | EHalfN | EChk | EClrP | EClrR | EGetCb | ECas | EWgAdd | ESpawn.
 Inductive spcT := SIdle | SCas | SWgAdd | SSpawn | SDone.
+(* the user reading synchronously BEFORE it installs callbacks: readMore's pendingData.moveTo(recvBuf), then the
+   Peek (k = 0) / ReadBytes (k > 0) itself *)
+Inductive sypcT := SyIdle | SyCons (k : nat).
 Inductive upcT := UIdle | UPut (m : list Z).
 Record ulocal := { upc : upcT; utodo : list (list Z); ures : list bool }.
 
-Inductive who := WEv | WGor (i : nat) | WClo (i : nat) | WSet | WUser (i : nat).
+Inductive who := WEv | WGor (i : nat) | WClo (i : nat) | WSet | WUser (i : nat) | WSync.
 
 Record est := {
   st : Z;
@@ -78,7 +83,9 @@ Record est := {
   clos : list cpc;
   spc : spcT;
   users : list ulocal;
-  script : list (nat * bool);
+  script : list (nat * nat);
+  sypc : sypcT;
+  sytodo : list nat;
   processed : list ev;
   arrived : list Z;
   chunks : list (bool * list Z);
@@ -93,59 +100,63 @@ Record est := {
 }.
 
 Definition set_st (v : Z) (s : est) : est :=
-  {| st := v; inproc := inproc s; cstate := cstate s; wg := wg s; cbset := cbset s; intable := intable s; cnotify := cnotify s; pending := pending s; recv := recv s; inbox := inbox s; epc := epc s; gors := gors s; clos := clos s; spc := spc s; users := users s; script := script s; processed := processed s; arrived := arrived s; chunks := chunks s; consumed := consumed s; offers := offers s; nlocal := nlocal s; nremote := nremote s; out := out s; khalf := khalf s; lhalf := lhalf s; casfail := casfail s |}.
+  {| st := v; inproc := inproc s; cstate := cstate s; wg := wg s; cbset := cbset s; intable := intable s; cnotify := cnotify s; pending := pending s; recv := recv s; inbox := inbox s; epc := epc s; gors := gors s; clos := clos s; spc := spc s; users := users s; script := script s; sypc := sypc s; sytodo := sytodo s; processed := processed s; arrived := arrived s; chunks := chunks s; consumed := consumed s; offers := offers s; nlocal := nlocal s; nremote := nremote s; out := out s; khalf := khalf s; lhalf := lhalf s; casfail := casfail s |}.
 Definition set_inproc (v : Z) (s : est) : est :=
-  {| st := st s; inproc := v; cstate := cstate s; wg := wg s; cbset := cbset s; intable := intable s; cnotify := cnotify s; pending := pending s; recv := recv s; inbox := inbox s; epc := epc s; gors := gors s; clos := clos s; spc := spc s; users := users s; script := script s; processed := processed s; arrived := arrived s; chunks := chunks s; consumed := consumed s; offers := offers s; nlocal := nlocal s; nremote := nremote s; out := out s; khalf := khalf s; lhalf := lhalf s; casfail := casfail s |}.
+  {| st := st s; inproc := v; cstate := cstate s; wg := wg s; cbset := cbset s; intable := intable s; cnotify := cnotify s; pending := pending s; recv := recv s; inbox := inbox s; epc := epc s; gors := gors s; clos := clos s; spc := spc s; users := users s; script := script s; sypc := sypc s; sytodo := sytodo s; processed := processed s; arrived := arrived s; chunks := chunks s; consumed := consumed s; offers := offers s; nlocal := nlocal s; nremote := nremote s; out := out s; khalf := khalf s; lhalf := lhalf s; casfail := casfail s |}.
 Definition set_cstate (v : Z) (s : est) : est :=
-  {| st := st s; inproc := inproc s; cstate := v; wg := wg s; cbset := cbset s; intable := intable s; cnotify := cnotify s; pending := pending s; recv := recv s; inbox := inbox s; epc := epc s; gors := gors s; clos := clos s; spc := spc s; users := users s; script := script s; processed := processed s; arrived := arrived s; chunks := chunks s; consumed := consumed s; offers := offers s; nlocal := nlocal s; nremote := nremote s; out := out s; khalf := khalf s; lhalf := lhalf s; casfail := casfail s |}.
+  {| st := st s; inproc := inproc s; cstate := v; wg := wg s; cbset := cbset s; intable := intable s; cnotify := cnotify s; pending := pending s; recv := recv s; inbox := inbox s; epc := epc s; gors := gors s; clos := clos s; spc := spc s; users := users s; script := script s; sypc := sypc s; sytodo := sytodo s; processed := processed s; arrived := arrived s; chunks := chunks s; consumed := consumed s; offers := offers s; nlocal := nlocal s; nremote := nremote s; out := out s; khalf := khalf s; lhalf := lhalf s; casfail := casfail s |}.
 Definition set_wg (v : Z) (s : est) : est :=
-  {| st := st s; inproc := inproc s; cstate := cstate s; wg := v; cbset := cbset s; intable := intable s; cnotify := cnotify s; pending := pending s; recv := recv s; inbox := inbox s; epc := epc s; gors := gors s; clos := clos s; spc := spc s; users := users s; script := script s; processed := processed s; arrived := arrived s; chunks := chunks s; consumed := consumed s; offers := offers s; nlocal := nlocal s; nremote := nremote s; out := out s; khalf := khalf s; lhalf := lhalf s; casfail := casfail s |}.
+  {| st := st s; inproc := inproc s; cstate := cstate s; wg := v; cbset := cbset s; intable := intable s; cnotify := cnotify s; pending := pending s; recv := recv s; inbox := inbox s; epc := epc s; gors := gors s; clos := clos s; spc := spc s; users := users s; script := script s; sypc := sypc s; sytodo := sytodo s; processed := processed s; arrived := arrived s; chunks := chunks s; consumed := consumed s; offers := offers s; nlocal := nlocal s; nremote := nremote s; out := out s; khalf := khalf s; lhalf := lhalf s; casfail := casfail s |}.
 Definition set_cbset (v : bool) (s : est) : est :=
-  {| st := st s; inproc := inproc s; cstate := cstate s; wg := wg s; cbset := v; intable := intable s; cnotify := cnotify s; pending := pending s; recv := recv s; inbox := inbox s; epc := epc s; gors := gors s; clos := clos s; spc := spc s; users := users s; script := script s; processed := processed s; arrived := arrived s; chunks := chunks s; consumed := consumed s; offers := offers s; nlocal := nlocal s; nremote := nremote s; out := out s; khalf := khalf s; lhalf := lhalf s; casfail := casfail s |}.
+  {| st := st s; inproc := inproc s; cstate := cstate s; wg := wg s; cbset := v; intable := intable s; cnotify := cnotify s; pending := pending s; recv := recv s; inbox := inbox s; epc := epc s; gors := gors s; clos := clos s; spc := spc s; users := users s; script := script s; sypc := sypc s; sytodo := sytodo s; processed := processed s; arrived := arrived s; chunks := chunks s; consumed := consumed s; offers := offers s; nlocal := nlocal s; nremote := nremote s; out := out s; khalf := khalf s; lhalf := lhalf s; casfail := casfail s |}.
 Definition set_intable (v : bool) (s : est) : est :=
-  {| st := st s; inproc := inproc s; cstate := cstate s; wg := wg s; cbset := cbset s; intable := v; cnotify := cnotify s; pending := pending s; recv := recv s; inbox := inbox s; epc := epc s; gors := gors s; clos := clos s; spc := spc s; users := users s; script := script s; processed := processed s; arrived := arrived s; chunks := chunks s; consumed := consumed s; offers := offers s; nlocal := nlocal s; nremote := nremote s; out := out s; khalf := khalf s; lhalf := lhalf s; casfail := casfail s |}.
+  {| st := st s; inproc := inproc s; cstate := cstate s; wg := wg s; cbset := cbset s; intable := v; cnotify := cnotify s; pending := pending s; recv := recv s; inbox := inbox s; epc := epc s; gors := gors s; clos := clos s; spc := spc s; users := users s; script := script s; sypc := sypc s; sytodo := sytodo s; processed := processed s; arrived := arrived s; chunks := chunks s; consumed := consumed s; offers := offers s; nlocal := nlocal s; nremote := nremote s; out := out s; khalf := khalf s; lhalf := lhalf s; casfail := casfail s |}.
 Definition set_cnotify (v : bool) (s : est) : est :=
-  {| st := st s; inproc := inproc s; cstate := cstate s; wg := wg s; cbset := cbset s; intable := intable s; cnotify := v; pending := pending s; recv := recv s; inbox := inbox s; epc := epc s; gors := gors s; clos := clos s; spc := spc s; users := users s; script := script s; processed := processed s; arrived := arrived s; chunks := chunks s; consumed := consumed s; offers := offers s; nlocal := nlocal s; nremote := nremote s; out := out s; khalf := khalf s; lhalf := lhalf s; casfail := casfail s |}.
+  {| st := st s; inproc := inproc s; cstate := cstate s; wg := wg s; cbset := cbset s; intable := intable s; cnotify := v; pending := pending s; recv := recv s; inbox := inbox s; epc := epc s; gors := gors s; clos := clos s; spc := spc s; users := users s; script := script s; sypc := sypc s; sytodo := sytodo s; processed := processed s; arrived := arrived s; chunks := chunks s; consumed := consumed s; offers := offers s; nlocal := nlocal s; nremote := nremote s; out := out s; khalf := khalf s; lhalf := lhalf s; casfail := casfail s |}.
 Definition set_pending (v : list (list Z)) (s : est) : est :=
-  {| st := st s; inproc := inproc s; cstate := cstate s; wg := wg s; cbset := cbset s; intable := intable s; cnotify := cnotify s; pending := v; recv := recv s; inbox := inbox s; epc := epc s; gors := gors s; clos := clos s; spc := spc s; users := users s; script := script s; processed := processed s; arrived := arrived s; chunks := chunks s; consumed := consumed s; offers := offers s; nlocal := nlocal s; nremote := nremote s; out := out s; khalf := khalf s; lhalf := lhalf s; casfail := casfail s |}.
+  {| st := st s; inproc := inproc s; cstate := cstate s; wg := wg s; cbset := cbset s; intable := intable s; cnotify := cnotify s; pending := v; recv := recv s; inbox := inbox s; epc := epc s; gors := gors s; clos := clos s; spc := spc s; users := users s; script := script s; sypc := sypc s; sytodo := sytodo s; processed := processed s; arrived := arrived s; chunks := chunks s; consumed := consumed s; offers := offers s; nlocal := nlocal s; nremote := nremote s; out := out s; khalf := khalf s; lhalf := lhalf s; casfail := casfail s |}.
 Definition set_recv (v : list Z) (s : est) : est :=
-  {| st := st s; inproc := inproc s; cstate := cstate s; wg := wg s; cbset := cbset s; intable := intable s; cnotify := cnotify s; pending := pending s; recv := v; inbox := inbox s; epc := epc s; gors := gors s; clos := clos s; spc := spc s; users := users s; script := script s; processed := processed s; arrived := arrived s; chunks := chunks s; consumed := consumed s; offers := offers s; nlocal := nlocal s; nremote := nremote s; out := out s; khalf := khalf s; lhalf := lhalf s; casfail := casfail s |}.
+  {| st := st s; inproc := inproc s; cstate := cstate s; wg := wg s; cbset := cbset s; intable := intable s; cnotify := cnotify s; pending := pending s; recv := v; inbox := inbox s; epc := epc s; gors := gors s; clos := clos s; spc := spc s; users := users s; script := script s; sypc := sypc s; sytodo := sytodo s; processed := processed s; arrived := arrived s; chunks := chunks s; consumed := consumed s; offers := offers s; nlocal := nlocal s; nremote := nremote s; out := out s; khalf := khalf s; lhalf := lhalf s; casfail := casfail s |}.
 Definition set_inbox (v : list ev) (s : est) : est :=
-  {| st := st s; inproc := inproc s; cstate := cstate s; wg := wg s; cbset := cbset s; intable := intable s; cnotify := cnotify s; pending := pending s; recv := recv s; inbox := v; epc := epc s; gors := gors s; clos := clos s; spc := spc s; users := users s; script := script s; processed := processed s; arrived := arrived s; chunks := chunks s; consumed := consumed s; offers := offers s; nlocal := nlocal s; nremote := nremote s; out := out s; khalf := khalf s; lhalf := lhalf s; casfail := casfail s |}.
+  {| st := st s; inproc := inproc s; cstate := cstate s; wg := wg s; cbset := cbset s; intable := intable s; cnotify := cnotify s; pending := pending s; recv := recv s; inbox := v; epc := epc s; gors := gors s; clos := clos s; spc := spc s; users := users s; script := script s; sypc := sypc s; sytodo := sytodo s; processed := processed s; arrived := arrived s; chunks := chunks s; consumed := consumed s; offers := offers s; nlocal := nlocal s; nremote := nremote s; out := out s; khalf := khalf s; lhalf := lhalf s; casfail := casfail s |}.
 Definition set_epc (v : epcT) (s : est) : est :=
-  {| st := st s; inproc := inproc s; cstate := cstate s; wg := wg s; cbset := cbset s; intable := intable s; cnotify := cnotify s; pending := pending s; recv := recv s; inbox := inbox s; epc := v; gors := gors s; clos := clos s; spc := spc s; users := users s; script := script s; processed := processed s; arrived := arrived s; chunks := chunks s; consumed := consumed s; offers := offers s; nlocal := nlocal s; nremote := nremote s; out := out s; khalf := khalf s; lhalf := lhalf s; casfail := casfail s |}.
+  {| st := st s; inproc := inproc s; cstate := cstate s; wg := wg s; cbset := cbset s; intable := intable s; cnotify := cnotify s; pending := pending s; recv := recv s; inbox := inbox s; epc := v; gors := gors s; clos := clos s; spc := spc s; users := users s; script := script s; sypc := sypc s; sytodo := sytodo s; processed := processed s; arrived := arrived s; chunks := chunks s; consumed := consumed s; offers := offers s; nlocal := nlocal s; nremote := nremote s; out := out s; khalf := khalf s; lhalf := lhalf s; casfail := casfail s |}.
 Definition set_gors (v : list gpc) (s : est) : est :=
-  {| st := st s; inproc := inproc s; cstate := cstate s; wg := wg s; cbset := cbset s; intable := intable s; cnotify := cnotify s; pending := pending s; recv := recv s; inbox := inbox s; epc := epc s; gors := v; clos := clos s; spc := spc s; users := users s; script := script s; processed := processed s; arrived := arrived s; chunks := chunks s; consumed := consumed s; offers := offers s; nlocal := nlocal s; nremote := nremote s; out := out s; khalf := khalf s; lhalf := lhalf s; casfail := casfail s |}.
+  {| st := st s; inproc := inproc s; cstate := cstate s; wg := wg s; cbset := cbset s; intable := intable s; cnotify := cnotify s; pending := pending s; recv := recv s; inbox := inbox s; epc := epc s; gors := v; clos := clos s; spc := spc s; users := users s; script := script s; sypc := sypc s; sytodo := sytodo s; processed := processed s; arrived := arrived s; chunks := chunks s; consumed := consumed s; offers := offers s; nlocal := nlocal s; nremote := nremote s; out := out s; khalf := khalf s; lhalf := lhalf s; casfail := casfail s |}.
 Definition set_clos (v : list cpc) (s : est) : est :=
-  {| st := st s; inproc := inproc s; cstate := cstate s; wg := wg s; cbset := cbset s; intable := intable s; cnotify := cnotify s; pending := pending s; recv := recv s; inbox := inbox s; epc := epc s; gors := gors s; clos := v; spc := spc s; users := users s; script := script s; processed := processed s; arrived := arrived s; chunks := chunks s; consumed := consumed s; offers := offers s; nlocal := nlocal s; nremote := nremote s; out := out s; khalf := khalf s; lhalf := lhalf s; casfail := casfail s |}.
+  {| st := st s; inproc := inproc s; cstate := cstate s; wg := wg s; cbset := cbset s; intable := intable s; cnotify := cnotify s; pending := pending s; recv := recv s; inbox := inbox s; epc := epc s; gors := gors s; clos := v; spc := spc s; users := users s; script := script s; sypc := sypc s; sytodo := sytodo s; processed := processed s; arrived := arrived s; chunks := chunks s; consumed := consumed s; offers := offers s; nlocal := nlocal s; nremote := nremote s; out := out s; khalf := khalf s; lhalf := lhalf s; casfail := casfail s |}.
 Definition set_spc (v : spcT) (s : est) : est :=
-  {| st := st s; inproc := inproc s; cstate := cstate s; wg := wg s; cbset := cbset s; intable := intable s; cnotify := cnotify s; pending := pending s; recv := recv s; inbox := inbox s; epc := epc s; gors := gors s; clos := clos s; spc := v; users := users s; script := script s; processed := processed s; arrived := arrived s; chunks := chunks s; consumed := consumed s; offers := offers s; nlocal := nlocal s; nremote := nremote s; out := out s; khalf := khalf s; lhalf := lhalf s; casfail := casfail s |}.
+  {| st := st s; inproc := inproc s; cstate := cstate s; wg := wg s; cbset := cbset s; intable := intable s; cnotify := cnotify s; pending := pending s; recv := recv s; inbox := inbox s; epc := epc s; gors := gors s; clos := clos s; spc := v; users := users s; script := script s; sypc := sypc s; sytodo := sytodo s; processed := processed s; arrived := arrived s; chunks := chunks s; consumed := consumed s; offers := offers s; nlocal := nlocal s; nremote := nremote s; out := out s; khalf := khalf s; lhalf := lhalf s; casfail := casfail s |}.
 Definition set_users (v : list ulocal) (s : est) : est :=
-  {| st := st s; inproc := inproc s; cstate := cstate s; wg := wg s; cbset := cbset s; intable := intable s; cnotify := cnotify s; pending := pending s; recv := recv s; inbox := inbox s; epc := epc s; gors := gors s; clos := clos s; spc := spc s; users := v; script := script s; processed := processed s; arrived := arrived s; chunks := chunks s; consumed := consumed s; offers := offers s; nlocal := nlocal s; nremote := nremote s; out := out s; khalf := khalf s; lhalf := lhalf s; casfail := casfail s |}.
-Definition set_script (v : list (nat * bool)) (s : est) : est :=
-  {| st := st s; inproc := inproc s; cstate := cstate s; wg := wg s; cbset := cbset s; intable := intable s; cnotify := cnotify s; pending := pending s; recv := recv s; inbox := inbox s; epc := epc s; gors := gors s; clos := clos s; spc := spc s; users := users s; script := v; processed := processed s; arrived := arrived s; chunks := chunks s; consumed := consumed s; offers := offers s; nlocal := nlocal s; nremote := nremote s; out := out s; khalf := khalf s; lhalf := lhalf s; casfail := casfail s |}.
+  {| st := st s; inproc := inproc s; cstate := cstate s; wg := wg s; cbset := cbset s; intable := intable s; cnotify := cnotify s; pending := pending s; recv := recv s; inbox := inbox s; epc := epc s; gors := gors s; clos := clos s; spc := spc s; users := v; script := script s; sypc := sypc s; sytodo := sytodo s; processed := processed s; arrived := arrived s; chunks := chunks s; consumed := consumed s; offers := offers s; nlocal := nlocal s; nremote := nremote s; out := out s; khalf := khalf s; lhalf := lhalf s; casfail := casfail s |}.
+Definition set_script (v : list (nat * nat)) (s : est) : est :=
+  {| st := st s; inproc := inproc s; cstate := cstate s; wg := wg s; cbset := cbset s; intable := intable s; cnotify := cnotify s; pending := pending s; recv := recv s; inbox := inbox s; epc := epc s; gors := gors s; clos := clos s; spc := spc s; users := users s; script := v; sypc := sypc s; sytodo := sytodo s; processed := processed s; arrived := arrived s; chunks := chunks s; consumed := consumed s; offers := offers s; nlocal := nlocal s; nremote := nremote s; out := out s; khalf := khalf s; lhalf := lhalf s; casfail := casfail s |}.
+Definition set_sypc (v : sypcT) (s : est) : est :=
+  {| st := st s; inproc := inproc s; cstate := cstate s; wg := wg s; cbset := cbset s; intable := intable s; cnotify := cnotify s; pending := pending s; recv := recv s; inbox := inbox s; epc := epc s; gors := gors s; clos := clos s; spc := spc s; users := users s; script := script s; sypc := v; sytodo := sytodo s; processed := processed s; arrived := arrived s; chunks := chunks s; consumed := consumed s; offers := offers s; nlocal := nlocal s; nremote := nremote s; out := out s; khalf := khalf s; lhalf := lhalf s; casfail := casfail s |}.
+Definition set_sytodo (v : list nat) (s : est) : est :=
+  {| st := st s; inproc := inproc s; cstate := cstate s; wg := wg s; cbset := cbset s; intable := intable s; cnotify := cnotify s; pending := pending s; recv := recv s; inbox := inbox s; epc := epc s; gors := gors s; clos := clos s; spc := spc s; users := users s; script := script s; sypc := sypc s; sytodo := v; processed := processed s; arrived := arrived s; chunks := chunks s; consumed := consumed s; offers := offers s; nlocal := nlocal s; nremote := nremote s; out := out s; khalf := khalf s; lhalf := lhalf s; casfail := casfail s |}.
 Definition set_processed (v : list ev) (s : est) : est :=
-  {| st := st s; inproc := inproc s; cstate := cstate s; wg := wg s; cbset := cbset s; intable := intable s; cnotify := cnotify s; pending := pending s; recv := recv s; inbox := inbox s; epc := epc s; gors := gors s; clos := clos s; spc := spc s; users := users s; script := script s; processed := v; arrived := arrived s; chunks := chunks s; consumed := consumed s; offers := offers s; nlocal := nlocal s; nremote := nremote s; out := out s; khalf := khalf s; lhalf := lhalf s; casfail := casfail s |}.
+  {| st := st s; inproc := inproc s; cstate := cstate s; wg := wg s; cbset := cbset s; intable := intable s; cnotify := cnotify s; pending := pending s; recv := recv s; inbox := inbox s; epc := epc s; gors := gors s; clos := clos s; spc := spc s; users := users s; script := script s; sypc := sypc s; sytodo := sytodo s; processed := v; arrived := arrived s; chunks := chunks s; consumed := consumed s; offers := offers s; nlocal := nlocal s; nremote := nremote s; out := out s; khalf := khalf s; lhalf := lhalf s; casfail := casfail s |}.
 Definition set_arrived (v : list Z) (s : est) : est :=
-  {| st := st s; inproc := inproc s; cstate := cstate s; wg := wg s; cbset := cbset s; intable := intable s; cnotify := cnotify s; pending := pending s; recv := recv s; inbox := inbox s; epc := epc s; gors := gors s; clos := clos s; spc := spc s; users := users s; script := script s; processed := processed s; arrived := v; chunks := chunks s; consumed := consumed s; offers := offers s; nlocal := nlocal s; nremote := nremote s; out := out s; khalf := khalf s; lhalf := lhalf s; casfail := casfail s |}.
+  {| st := st s; inproc := inproc s; cstate := cstate s; wg := wg s; cbset := cbset s; intable := intable s; cnotify := cnotify s; pending := pending s; recv := recv s; inbox := inbox s; epc := epc s; gors := gors s; clos := clos s; spc := spc s; users := users s; script := script s; sypc := sypc s; sytodo := sytodo s; processed := processed s; arrived := v; chunks := chunks s; consumed := consumed s; offers := offers s; nlocal := nlocal s; nremote := nremote s; out := out s; khalf := khalf s; lhalf := lhalf s; casfail := casfail s |}.
 Definition set_chunks (v : list (bool * list Z)) (s : est) : est :=
-  {| st := st s; inproc := inproc s; cstate := cstate s; wg := wg s; cbset := cbset s; intable := intable s; cnotify := cnotify s; pending := pending s; recv := recv s; inbox := inbox s; epc := epc s; gors := gors s; clos := clos s; spc := spc s; users := users s; script := script s; processed := processed s; arrived := arrived s; chunks := v; consumed := consumed s; offers := offers s; nlocal := nlocal s; nremote := nremote s; out := out s; khalf := khalf s; lhalf := lhalf s; casfail := casfail s |}.
+  {| st := st s; inproc := inproc s; cstate := cstate s; wg := wg s; cbset := cbset s; intable := intable s; cnotify := cnotify s; pending := pending s; recv := recv s; inbox := inbox s; epc := epc s; gors := gors s; clos := clos s; spc := spc s; users := users s; script := script s; sypc := sypc s; sytodo := sytodo s; processed := processed s; arrived := arrived s; chunks := v; consumed := consumed s; offers := offers s; nlocal := nlocal s; nremote := nremote s; out := out s; khalf := khalf s; lhalf := lhalf s; casfail := casfail s |}.
 Definition set_consumed (v : list Z) (s : est) : est :=
-  {| st := st s; inproc := inproc s; cstate := cstate s; wg := wg s; cbset := cbset s; intable := intable s; cnotify := cnotify s; pending := pending s; recv := recv s; inbox := inbox s; epc := epc s; gors := gors s; clos := clos s; spc := spc s; users := users s; script := script s; processed := processed s; arrived := arrived s; chunks := chunks s; consumed := v; offers := offers s; nlocal := nlocal s; nremote := nremote s; out := out s; khalf := khalf s; lhalf := lhalf s; casfail := casfail s |}.
+  {| st := st s; inproc := inproc s; cstate := cstate s; wg := wg s; cbset := cbset s; intable := intable s; cnotify := cnotify s; pending := pending s; recv := recv s; inbox := inbox s; epc := epc s; gors := gors s; clos := clos s; spc := spc s; users := users s; script := script s; sypc := sypc s; sytodo := sytodo s; processed := processed s; arrived := arrived s; chunks := chunks s; consumed := v; offers := offers s; nlocal := nlocal s; nremote := nremote s; out := out s; khalf := khalf s; lhalf := lhalf s; casfail := casfail s |}.
 Definition set_offers (v : list (list Z)) (s : est) : est :=
-  {| st := st s; inproc := inproc s; cstate := cstate s; wg := wg s; cbset := cbset s; intable := intable s; cnotify := cnotify s; pending := pending s; recv := recv s; inbox := inbox s; epc := epc s; gors := gors s; clos := clos s; spc := spc s; users := users s; script := script s; processed := processed s; arrived := arrived s; chunks := chunks s; consumed := consumed s; offers := v; nlocal := nlocal s; nremote := nremote s; out := out s; khalf := khalf s; lhalf := lhalf s; casfail := casfail s |}.
+  {| st := st s; inproc := inproc s; cstate := cstate s; wg := wg s; cbset := cbset s; intable := intable s; cnotify := cnotify s; pending := pending s; recv := recv s; inbox := inbox s; epc := epc s; gors := gors s; clos := clos s; spc := spc s; users := users s; script := script s; sypc := sypc s; sytodo := sytodo s; processed := processed s; arrived := arrived s; chunks := chunks s; consumed := consumed s; offers := v; nlocal := nlocal s; nremote := nremote s; out := out s; khalf := khalf s; lhalf := lhalf s; casfail := casfail s |}.
 Definition set_nlocal (v : Z) (s : est) : est :=
-  {| st := st s; inproc := inproc s; cstate := cstate s; wg := wg s; cbset := cbset s; intable := intable s; cnotify := cnotify s; pending := pending s; recv := recv s; inbox := inbox s; epc := epc s; gors := gors s; clos := clos s; spc := spc s; users := users s; script := script s; processed := processed s; arrived := arrived s; chunks := chunks s; consumed := consumed s; offers := offers s; nlocal := v; nremote := nremote s; out := out s; khalf := khalf s; lhalf := lhalf s; casfail := casfail s |}.
+  {| st := st s; inproc := inproc s; cstate := cstate s; wg := wg s; cbset := cbset s; intable := intable s; cnotify := cnotify s; pending := pending s; recv := recv s; inbox := inbox s; epc := epc s; gors := gors s; clos := clos s; spc := spc s; users := users s; script := script s; sypc := sypc s; sytodo := sytodo s; processed := processed s; arrived := arrived s; chunks := chunks s; consumed := consumed s; offers := offers s; nlocal := v; nremote := nremote s; out := out s; khalf := khalf s; lhalf := lhalf s; casfail := casfail s |}.
 Definition set_nremote (v : Z) (s : est) : est :=
-  {| st := st s; inproc := inproc s; cstate := cstate s; wg := wg s; cbset := cbset s; intable := intable s; cnotify := cnotify s; pending := pending s; recv := recv s; inbox := inbox s; epc := epc s; gors := gors s; clos := clos s; spc := spc s; users := users s; script := script s; processed := processed s; arrived := arrived s; chunks := chunks s; consumed := consumed s; offers := offers s; nlocal := nlocal s; nremote := v; out := out s; khalf := khalf s; lhalf := lhalf s; casfail := casfail s |}.
+  {| st := st s; inproc := inproc s; cstate := cstate s; wg := wg s; cbset := cbset s; intable := intable s; cnotify := cnotify s; pending := pending s; recv := recv s; inbox := inbox s; epc := epc s; gors := gors s; clos := clos s; spc := spc s; users := users s; script := script s; sypc := sypc s; sytodo := sytodo s; processed := processed s; arrived := arrived s; chunks := chunks s; consumed := consumed s; offers := offers s; nlocal := nlocal s; nremote := v; out := out s; khalf := khalf s; lhalf := lhalf s; casfail := casfail s |}.
 Definition set_out (v : list ev) (s : est) : est :=
-  {| st := st s; inproc := inproc s; cstate := cstate s; wg := wg s; cbset := cbset s; intable := intable s; cnotify := cnotify s; pending := pending s; recv := recv s; inbox := inbox s; epc := epc s; gors := gors s; clos := clos s; spc := spc s; users := users s; script := script s; processed := processed s; arrived := arrived s; chunks := chunks s; consumed := consumed s; offers := offers s; nlocal := nlocal s; nremote := nremote s; out := v; khalf := khalf s; lhalf := lhalf s; casfail := casfail s |}.
+  {| st := st s; inproc := inproc s; cstate := cstate s; wg := wg s; cbset := cbset s; intable := intable s; cnotify := cnotify s; pending := pending s; recv := recv s; inbox := inbox s; epc := epc s; gors := gors s; clos := clos s; spc := spc s; users := users s; script := script s; sypc := sypc s; sytodo := sytodo s; processed := processed s; arrived := arrived s; chunks := chunks s; consumed := consumed s; offers := offers s; nlocal := nlocal s; nremote := nremote s; out := v; khalf := khalf s; lhalf := lhalf s; casfail := casfail s |}.
 Definition set_khalf (v : bool) (s : est) : est :=
-  {| st := st s; inproc := inproc s; cstate := cstate s; wg := wg s; cbset := cbset s; intable := intable s; cnotify := cnotify s; pending := pending s; recv := recv s; inbox := inbox s; epc := epc s; gors := gors s; clos := clos s; spc := spc s; users := users s; script := script s; processed := processed s; arrived := arrived s; chunks := chunks s; consumed := consumed s; offers := offers s; nlocal := nlocal s; nremote := nremote s; out := out s; khalf := v; lhalf := lhalf s; casfail := casfail s |}.
+  {| st := st s; inproc := inproc s; cstate := cstate s; wg := wg s; cbset := cbset s; intable := intable s; cnotify := cnotify s; pending := pending s; recv := recv s; inbox := inbox s; epc := epc s; gors := gors s; clos := clos s; spc := spc s; users := users s; script := script s; sypc := sypc s; sytodo := sytodo s; processed := processed s; arrived := arrived s; chunks := chunks s; consumed := consumed s; offers := offers s; nlocal := nlocal s; nremote := nremote s; out := out s; khalf := v; lhalf := lhalf s; casfail := casfail s |}.
 Definition set_lhalf (v : bool) (s : est) : est :=
-  {| st := st s; inproc := inproc s; cstate := cstate s; wg := wg s; cbset := cbset s; intable := intable s; cnotify := cnotify s; pending := pending s; recv := recv s; inbox := inbox s; epc := epc s; gors := gors s; clos := clos s; spc := spc s; users := users s; script := script s; processed := processed s; arrived := arrived s; chunks := chunks s; consumed := consumed s; offers := offers s; nlocal := nlocal s; nremote := nremote s; out := out s; khalf := khalf s; lhalf := v; casfail := casfail s |}.
+  {| st := st s; inproc := inproc s; cstate := cstate s; wg := wg s; cbset := cbset s; intable := intable s; cnotify := cnotify s; pending := pending s; recv := recv s; inbox := inbox s; epc := epc s; gors := gors s; clos := clos s; spc := spc s; users := users s; script := script s; sypc := sypc s; sytodo := sytodo s; processed := processed s; arrived := arrived s; chunks := chunks s; consumed := consumed s; offers := offers s; nlocal := nlocal s; nremote := nremote s; out := out s; khalf := khalf s; lhalf := v; casfail := casfail s |}.
 Definition set_casfail (v : bool) (s : est) : est :=
-  {| st := st s; inproc := inproc s; cstate := cstate s; wg := wg s; cbset := cbset s; intable := intable s; cnotify := cnotify s; pending := pending s; recv := recv s; inbox := inbox s; epc := epc s; gors := gors s; clos := clos s; spc := spc s; users := users s; script := script s; processed := processed s; arrived := arrived s; chunks := chunks s; consumed := consumed s; offers := offers s; nlocal := nlocal s; nremote := nremote s; out := out s; khalf := khalf s; lhalf := lhalf s; casfail := v |}.
+  {| st := st s; inproc := inproc s; cstate := cstate s; wg := wg s; cbset := cbset s; intable := intable s; cnotify := cnotify s; pending := pending s; recv := recv s; inbox := inbox s; epc := epc s; gors := gors s; clos := clos s; spc := spc s; users := users s; script := script s; sypc := sypc s; sytodo := sytodo s; processed := processed s; arrived := arrived s; chunks := chunks s; consumed := consumed s; offers := offers s; nlocal := nlocal s; nremote := nremote s; out := out s; khalf := khalf s; lhalf := lhalf s; casfail := v |}.
 
 Fixpoint set_nth {A} (n : nat) (x : A) (l : list A) : list A :=
   match l, n with
@@ -219,12 +230,16 @@ Definition gstep (i : nat) (s : est) : est :=
     | GChk => if st s =? c_streamOpened
               then match recv s with [] => setg i GClr s | _ => setg i GCb s end
               else setg i GClr s
-    | GCb => let a := hd (length (recv s), false) (script s) in
+    | GCb => let a := hd (length (recv s), O) (script s) in
              setg i (GCbBody (fst a) (snd a)) (set_offers (offers s ++ [recv s]) (set_script (tl (script s)) s))
-    | GCbBody k cl => setg i (if cl then GCbClose KStart else GCbEnd)
+    | GCbBody k cl => setg i (match cl with O => GCbEnd | S more => GCbClose KStart more end)
                         (set_consumed (consumed s ++ firstn k (recv s)) (set_recv (skipn k (recv s)) s))
-    | GCbClose c => let r := cstep s c in
-                    setg i (match snd r with KRet => GCbEnd | c' => GCbClose c' end) (fst r)
+    | GCbClose c more =>
+        let r := cstep s c in
+        setg i (match snd r with
+                | KRet => match more with O => GCbEnd | S m => GCbClose KStart m end   (* Close() again in the same OnData *)
+                | c' => GCbClose c' more
+                end) (fst r)
     | GCbEnd => setg i GMove s
     | GClr => setg i GLdCs (set_inproc 0 s)
     | GLdCs => if cstate s =? v_callbackWaitExit then setg i GWgDoneClose s else setg i GLen s
@@ -248,7 +263,10 @@ Definition clstep (i : nat) (s : est) : est :=
 (* ---------- SetCallbacks ---------- *)
 Definition sstep (s : est) : est :=
   match spc s with
-  | SIdle => if cbset s then set_spc SDone s else set_spc SCas (set_cbset true s)
+  | SIdle => match sypc s with
+             | SyCons _ => s   (* the same user goroutine: its synchronous read finishes first *)
+             | SyIdle => if cbset s then set_spc SDone s else set_spc SCas (set_cbset true s)
+             end
   | SCas => if inproc s =? 0 then set_spc SWgAdd (set_inproc 1 s) else set_spc SDone s
   | SWgAdd => set_spc SSpawn (set_wg (wg s + 1) s)
   | SSpawn => set_spc SDone (set_gors (gors s ++ [GMove]) s)
@@ -272,6 +290,20 @@ Definition ustep (i : nat) (s : est) : est :=
     end
   end.
 
+(* ---------- synchronous reads before SetCallbacks ---------- *)
+Definition systep (s : est) : est :=
+  match sypc s with
+  | SyIdle => if cbset s then s else
+              match spc s with
+              | SIdle => match sytodo s with
+                         | [] => s
+                         | k :: r => set_sypc (SyCons k) (set_sytodo r (move_pending s))
+                         end
+              | _ => s
+              end
+  | SyCons k => set_sypc SyIdle (set_consumed (consumed s ++ firstn k (recv s)) (set_recv (skipn k (recv s)) s))
+  end.
+
 Definition step (s : est) (w : who) : est :=
   match w with
   | WEv => estep s
@@ -279,6 +311,7 @@ Definition step (s : est) (w : who) : est :=
   | WClo i => clstep i s
   | WSet => sstep s
   | WUser i => ustep i s
+  | WSync => systep s
   end.
 
 Definition run (sched : list who) (s : est) : est := fold_left step sched s.
@@ -286,13 +319,17 @@ Definition run (sched : list who) (s : est) : est := fold_left step sched s.
 (* cb0: callbacks installed before the first event (a client stream, or a server stream whose callbacks
    are set in OnNewStream); inb: the inbound events; ncl: number of Close() calls; scr: what the
    successive OnData invocations do; ups: Flush programs of user threads; setter: a SetCallbacks call *)
-Definition init (cb0 : bool) (inb : list ev) (ncl : nat) (scr : list (nat * bool)) (ups : list (list (list Z))) : est :=
+Definition init_sy (cb0 : bool) (inb : list ev) (ncl : nat) (scr : list (nat * nat)) (ups : list (list (list Z)))
+    (sy : list nat) : est :=
   {| st := c_streamOpened; inproc := 0; cstate := 0; wg := 0; cbset := cb0; intable := true; cnotify := false;
      pending := []; recv := [];
      inbox := inb; epc := EIdle; gors := []; clos := repeat KStart ncl; spc := SIdle;
-     users := map (fun p => {| upc := UIdle; utodo := p; ures := [] |}) ups; script := scr;
+     users := map (fun p => {| upc := UIdle; utodo := p; ures := [] |}) ups; script := scr; sypc := SyIdle; sytodo := sy;
      processed := []; arrived := []; chunks := []; consumed := []; offers := [];
      nlocal := 0; nremote := 0; out := []; khalf := false; lhalf := false; casfail := false |}.
+
+Definition init (cb0 : bool) (inb : list ev) (ncl : nat) (scr : list (nat * nat)) (ups : list (list (list Z))) : est :=
+  init_sy cb0 inb ncl scr ups [].
 
 (* ---------- observables ---------- *)
 Definition moved (s : est) : list Z := concat (map snd (filter fst (chunks s))).
@@ -319,5 +356,5 @@ Definition wstep (w : world) (x : side * who) : world :=
           {| wa := set_inbox (inbox (wa w) ++ newout (wb w) b') (wa w); wb := b' |}
   end.
 Definition wrun (sched : list (side * who)) (w : world) : world := fold_left wstep sched w.
-Definition winit (cba cbb : bool) (ncla nclb : nat) (scra scrb : list (nat * bool)) (upa upb : list (list (list Z))) : world :=
+Definition winit (cba cbb : bool) (ncla nclb : nat) (scra scrb : list (nat * nat)) (upa upb : list (list (list Z))) : world :=
   {| wa := init cba [] ncla scra upa; wb := init cbb [] nclb scrb upb |}.
